@@ -98,6 +98,12 @@ func (e *Engine) background(d *decls) []*Term {
 			out = append(out, Forall([]*Term{v}, Implies(Neq(v, IntLit(0)), Neq(App(fname, IntS, v), IntLit(0)))))
 		}
 	}
+	if _, ok := d.funcs["sidx"]; ok {
+		o, i := Var("so", IntS), Var("si", IntS)
+		q := Forall([]*Term{o, i}, Eq(App("sidx", IntS, o, i), Add(o, i)))
+		q.Pat = []*Term{App("sidx", IntS, o, i)}
+		out = append(out, q)
+	}
 	if _, ok := d.funcs["ValidPath"]; ok {
 		lits := map[string]bool{"": true, ".": true}
 		for l := range d.strLits {
@@ -242,7 +248,7 @@ func (e *Engine) solve(o *Obligation, outDir string, idx int, timeoutS int, both
 	}
 	res.File = filepath.Join(outDir, fmt.Sprintf("%05d.smt2", idx))
 	_ = os.WriteFile(res.File, []byte("; "+o.Name()+"\n; "+o.Pos+"\n"+script), 0o644)
-	if len(script) > 400000 {
+	if len(script) > 2000000 {
 		res.Status = "toolarge"
 		return res
 	}
